@@ -101,6 +101,9 @@ def View.next (idx : Index) (v : View) (n : Option Nat) : Option Nat :=
   | none => none
   | some n => if v.contains idx n then v.nodeByHeight ((idx.height n : Int) + 1) else none
 
+/-- `chainView.Equals`: same length and same tip -/
+def View.equals (v w : View) : Bool := v.length == w.length && v.tip == w.tip
+
 /-- the loop of `setTip` -/
 def setTipLoop (idx : Index) : Nat → Option Nat → View → View
   | 0, _, v => v
